@@ -143,7 +143,7 @@ def h_reverse(ctx, pname, D, P, zero_first=False):
 
 def units(tier, seed):
     out = []
-    D, P = (4, 2) if tier == 'quick' else (6, 2)
+    D, P = (4, 2) if tier == 'quick' else (8, 2)
     for op in O.catalogue():
         if 'c14only' in op.tags:
             continue
